@@ -197,6 +197,49 @@ theorem foldl_svcDelete {β : Type} (f : β → String) (l : List β) (s : State
     simp only [List.foldl_cons, svcDelete_nodes, svcDelete_svcs] at this ⊢
     exact this
 
+/-! ### session invalidation only touches the KV tables, the session table and the index table -/
+
+/-- the catalog tables of two states agree -/
+def CatEq (a b : State) : Prop := a.nodes = b.nodes ∧ a.svcs = b.svcs ∧ a.chks = b.chks
+
+theorem CatEq.rfl' (a : State) : CatEq a a := ⟨rfl, rfl, rfl⟩
+theorem CatEq.trans' {a b c : State} (h1 : CatEq a b) (h2 : CatEq b c) : CatEq a c :=
+  ⟨h1.1.trans h2.1, h1.2.1.trans h2.2.1, h1.2.2.trans h2.2.2⟩
+
+theorem foldl_CatEq {β : Type} (f : State → β → State) (hf : ∀ w x, CatEq (f w x) w) (l : List β) (s : State) :
+    CatEq (l.foldl f s) s := by
+  induction l generalizing s with
+  | nil => exact CatEq.rfl' s
+  | cons x l ih => exact CatEq.trans' (ih (f s x)) (hf s x)
+
+theorem kvSetCore_CatEq (s : State) (i : Nat) (k : String) (v : KVal) (u : Bool) : CatEq (kvSetCore s i k v u) s := by
+  unfold CatEq
+  cases h : tget s.kvs k with
+  | none => simp [kvSetCore, h]
+  | some e => simp only [kvSetCore, h]; split <;> (refine ⟨?_, ?_, ?_⟩ <;> split <;> rfl)
+
+theorem kvDelete_CatEq (s : State) (i : Nat) (k : String) : CatEq (kvDelete s i k) s := by
+  unfold kvDelete
+  split <;> exact ⟨rfl, rfl, rfl⟩
+
+theorem kvRelease_CatEq (s : State) (i : Nat) (k : String) : CatEq (kvRelease s i k) s := by
+  unfold kvRelease
+  split
+  · exact kvSetCore_CatEq _ _ _ _ _
+  · exact CatEq.rfl' s
+
+theorem sessDelete_CatEq (s : State) (i : Nat) (id : String) : CatEq (sessDelete s i id) s := by
+  unfold sessDelete
+  split
+  · exact CatEq.rfl' s
+  · split
+    · exact CatEq.trans' (foldl_CatEq _ (fun w k => kvDelete_CatEq w i k) _ _) ⟨rfl, rfl, rfl⟩
+    · exact CatEq.trans' (foldl_CatEq _ (fun w k => kvRelease_CatEq w i k) _ _) ⟨rfl, rfl, rfl⟩
+
+theorem foldl_sessDelete_CatEq {β : Type} (f : β → String) (l : List β) (s : State) (i : Nat) :
+    CatEq (l.foldl (fun w x => sessDelete w i (f x)) s) s :=
+  foldl_CatEq _ (fun w x => sessDelete_CatEq w i (f x)) l s
+
 /-- `ensureNodeTxn` refuses the write: the request carries a node ID and the name it asks for is
     defended by another registration (a rename never disputes a name with `allowClashWithoutID`,
     a new ID may take over the name of an ID-less or unhealthy registration) -/
